@@ -231,6 +231,8 @@ type Built struct {
 	// Container / WireFmt: for wire scenarios, the container bytes the loader was read from
 	Container []byte
 	WireFmt   int
+	// Plain: the store behind Loader without the injected loader errors
+	Plain delegation.Loader
 	ml      *MapLoader
 	errs    map[cid.Cid]bool
 }
@@ -391,6 +393,7 @@ func (s *Scenario) Build(r *rand.Rand) (*Built, error) {
 	b.ml = ml
 	b.errs = errs
 	b.Loader = ml
+	b.Plain = &MapLoader{M: ml.M, Errs: map[cid.Cid]bool{}}
 	if s.Wire > 0 {
 		var data []byte
 		var rd container.Reader
@@ -417,6 +420,7 @@ func (s *Scenario) Build(r *rand.Rand) (*Built, error) {
 			return nil, fmt.Errorf("container wire=%d: %w", s.Wire, err)
 		}
 		b.Container, b.WireFmt = data, s.Wire
+		b.Plain = rd
 		if len(errs) > 0 {
 			b.Loader = &errLoader{inner: rd, errs: errs}
 		} else {
